@@ -77,7 +77,7 @@ JAxis(ax, fv, av) ==
       bad == {u \in Probes(ax) : ~AxisMappingAt(ax, fvt, seg, u, tol)}
   IN IF ~(OnGrid(ax.min, 65536) /\ OnGrid(ax.def, 65536) /\ OnGrid(ax.max, 65536)) THEN "skip:axis value not representable in 16.16"
      ELSE IF ~AxisExact(ks) /\ ~KnotsApart(ks) THEN "skip:map knots closer than F2Dot14 resolves"
-     ELSE IF RBad(tol) \/ \E u \in Probes(ax) : RBad(AxisMappingWant(ax, u)) \/ RBad(NormalizeVF(fvt, seg, u)) THEN "skip:overflow"
+     ELSE IF RBad(tol) \/ \E u \in Probes(ax) : WithinBad(NormalizeVF(fvt, seg, u), AxisMappingWant(ax, u), tol) THEN "skip:overflow"
      ELSE IF ~PwlWellFormed(seg) THEN "AxisMapping:avar-not-a-map"
      ELSE IF bad # {} THEN "AxisMapping"
      ELSE "ok"
@@ -113,7 +113,7 @@ JItem(it, m, SMm, PMm) ==
   LET got == RAdd(RatJ(it.b), RowSum(it.r, SMm, 1, RZero))
       tol == RAdd(RHalf, RowAbsSum(it.r, PMm, 1, RZero))
       want == RatJ(it.v[m])
-  IN IF RBad(got) \/ RBad(tol) THEN "overflow" ELSE IF Within(got, want, tol) THEN "ok" ELSE "differs"
+  IN IF RBad(tol) \/ WithinBad(got, want, tol) THEN "overflow" ELSE IF Within(got, want, tol) THEN "ok" ELSE "differs"
 (* no row of the item peaks at (the F2Dot14 location of) a master that does not supply it; one unit of
    F2Dot14 for a tie rounded the other way *)
 Unit14 == Rat(1, 16384)
@@ -145,7 +145,7 @@ JGlyphAt(g, full, m, SMm, PMm) ==
       Coord(p, c) == RAdd(co[p][c], RSum(TLCEval([t \in 1..nt |-> RMul(sc[t], full[t][p][c])])))
       Tol(p, c) == RAdd(RAdd(RHalf, iup), RSum(TLCEval([t \in 1..nt |-> RMul(pe[t], RAbs(full[t][p][c]))])))
       vs == {LET got == Coord(p, c) tol == Tol(p, c) IN
-             IF RBad(got) \/ RBad(tol) THEN "overflow" ELSE IF Within(got, want[p][c], tol) THEN "ok" ELSE "differs"
+             IF RBad(tol) \/ WithinBad(got, want[p][c], tol) THEN "overflow" ELSE IF Within(got, want[p][c], tol) THEN "ok" ELSE "differs"
                : p \in 1..g.cmp, c \in 1..2}
   IN IF Len(want) # g.cmp THEN "structure"
      ELSE IF "differs" \in vs THEN "differs" ELSE IF "overflow" \in vs THEN "overflow" ELSE "ok"
